@@ -47,6 +47,8 @@ type FuncSpec struct {
 	RetType  string            // Lean type of the value (RetValErr / RetVal)
 	Rename   map[string]string // Go identifier -> Lean expression (parameters, package values)
 	NilValue []string          // identifiers that denote "the zero value" in `return zero, err`
+	WrapOk   string            // RetValErr: constructor applied to the value of `return v, nil`
+	WrapBoth string            // RetValErr: constructor applied to (v, err) of `return v, err` with non-zero v
 	RetParam string            // RetErr function that mutates this pointer parameter: `return nil` yields its final value
 }
 
@@ -76,7 +78,7 @@ func (t *tr) bad(reason string, n ast.Node) string {
 func ignorableCall(c *ast.CallExpr) bool {
 	s := exprString(c.Fun)
 	switch {
-	case strings.HasSuffix(s, "Tracer.Start"), s == "span.End", strings.HasPrefix(s, "logger."),
+	case strings.HasSuffix(s, "Tracer.Start"), strings.HasSuffix(s, "tracer.Start"), s == "span.End", strings.HasPrefix(s, "logger."),
 		strings.HasSuffix(s, ".Debug"), strings.HasSuffix(s, ".Info"), strings.HasSuffix(s, ".Error") && strings.Contains(s, "ogger"),
 		s == "span.RecordError", s == "span.SetStatus":
 		return true
@@ -249,12 +251,24 @@ func (t *tr) expr(e ast.Expr) string {
 		}
 		return t.bad("binary "+x.Op.String(), x)
 	case *ast.CompositeLit:
-		if s := exprString(x.Type) + "{}"; len(x.Elts) == 0 {
-			if r, ok := pkgMap[s]; ok {
+		tn := exprString(x.Type) + "{}"
+		if len(x.Elts) == 0 {
+			if r, ok := pkgMap[tn]; ok {
 				return r
 			}
 		}
-		return t.bad("composite literal", x)
+		if r, ok := t.spec.Rename[tn]; ok {
+			var vals []string
+			for _, e := range x.Elts {
+				if kv, ok := e.(*ast.KeyValueExpr); ok {
+					vals = append(vals, t.expr(kv.Value))
+				} else {
+					vals = append(vals, t.expr(e))
+				}
+			}
+			return "(" + r + " " + strings.Join(vals, " ") + ")"
+		}
+		return t.bad("composite literal "+tn, x)
 	case *ast.IndexExpr:
 		if _, isCall := x.X.(*ast.CallExpr); !isCall {
 			// generic instantiation f[T] is handled at the call; slice index a[i]:
@@ -385,6 +399,14 @@ func (t *tr) call(c *ast.CallExpr) string {
 // errValue maps an error-constructing expression to the name of the sentinel it wraps.
 func (t *tr) errValue(e ast.Expr) string {
 	switch x := e.(type) {
+	case *ast.CompositeLit:
+		if len(x.Elts) == 1 {
+			if kv, ok := x.Elts[0].(*ast.KeyValueExpr); ok {
+				return t.errValue(kv.Value)
+			}
+			return t.errValue(x.Elts[0])
+		}
+		return t.bad("error literal", x)
 	case *ast.Ident:
 		if x.Name == "err" || strings.HasSuffix(x.Name, "Err") || strings.HasSuffix(x.Name, "err") {
 			return x.Name
@@ -486,13 +508,19 @@ func (t *tr) ret(r *ast.ReturnStmt) string {
 			return t.bad("return arity", r)
 		}
 		if id, ok := r.Results[1].(*ast.Ident); ok && id.Name == "nil" {
+			if t.spec.WrapOk != "" {
+				return "(.ok (" + t.spec.WrapOk + " " + t.expr(r.Results[0]) + "))"
+			}
 			return "(.ok " + t.expr(r.Results[0]) + ")"
 		}
 		if t.isNilValue(r.Results[0]) {
 			return "(.error " + t.errValue(r.Results[1]) + ")"
 		}
 		// value AND error (e.g. claims, IDTokenHintExpiredError): modelled by the spec'd combinator
-		return "(Go.valueWithErr " + t.expr(r.Results[0]) + " " + t.errValue(r.Results[1]) + ")"
+		if t.spec.WrapBoth != "" {
+			return "(.ok (" + t.spec.WrapBoth + " " + t.expr(r.Results[0]) + " " + t.errValue(r.Results[1]) + "))"
+		}
+		return t.bad("return of value and error", r)
 	case RetVal:
 		if len(r.Results) != 1 {
 			return t.bad("return arity", r)
@@ -601,6 +629,9 @@ func (t *tr) block(stmts []ast.Stmt, k cont) string {
 			}
 		}
 		if len(x.Lhs) == 1 && len(x.Rhs) == 1 {
+			if c, ok := x.Rhs[0].(*ast.CallExpr); ok && exprString(c.Fun) == "new" {
+				return rest() // pure allocation of an out-parameter target
+			}
 			return "let " + t.ident(exprString(x.Lhs[0])) + " := " + t.expr(x.Rhs[0]) + ";\n" + t.pad() + rest()
 		}
 		return t.bad("assignment", x)
